@@ -744,7 +744,7 @@ func (sd *SpecAnalyser) compareSimpleSchema(location DifferenceLocation, schema1
 		sd.addDiffs(location, addTypeDiff([]TypeDiff{}, TypeDiff{Change: ChangedCollectionFormat, FromType: getSchemaTypeStr(schema1), ToType: getSchemaTypeStr(schema2)}))
 	}
 
-	if schema1.Default != schema2.Default {
+	if !reflect.DeepEqual(schema1.Default, schema2.Default) {
 		switch {
 		case schema1.Default == nil && schema2.Default != nil:
 			sd.addDiffs(location, addTypeDiff([]TypeDiff{}, TypeDiff{Change: AddedDefault, FromType: getSchemaTypeStr(schema1), ToType: getSchemaTypeStr(schema2)}))
@@ -755,7 +755,7 @@ func (sd *SpecAnalyser) compareSimpleSchema(location DifferenceLocation, schema1
 		}
 	}
 
-	if schema1.Example != schema2.Example {
+	if !reflect.DeepEqual(schema1.Example, schema2.Example) {
 		switch {
 		case schema1.Example == nil && schema2.Example != nil:
 			sd.addDiffs(location, addTypeDiff([]TypeDiff{}, TypeDiff{Change: AddedExample, FromType: getSchemaTypeStr(schema1), ToType: getSchemaTypeStr(schema2)}))
